@@ -135,7 +135,7 @@ def pytask_execute_task_setup(session: Session, task: PTask) -> None:  # noqa: C
     # skip the checks as well.
     needs_to_be_executed = session.config["force"] or is_task_generator(task)
 
-    if not needs_to_be_executed:
+    if not is_task_generator(task):
         predecessors = set(dag.predecessors(task.signature)) | {task.signature}
         for node_signature in node_and_neighbors(dag, task.signature):
             node = dag.nodes[node_signature].get("task") or dag.nodes[
@@ -146,6 +146,11 @@ def pytask_execute_task_setup(session: Session, task: PTask) -> None:  # noqa: C
             if node_signature not in predecessors and isinstance(
                 node, PProvisionalNode
             ):
+                continue
+
+            # Once it is clear that the task is executed, only the existence of the
+            # remaining dependencies is checked.
+            if needs_to_be_executed and node_signature not in predecessors:
                 continue
 
             node_state = node.state()
@@ -159,10 +164,10 @@ def pytask_execute_task_setup(session: Session, task: PTask) -> None:  # noqa: C
                     )
                 raise NodeNotFoundError(msg)
 
-            has_changed = has_node_changed(task=task, node=node, state=node_state)
-            if has_changed:
-                needs_to_be_executed = True
-                break
+            if not needs_to_be_executed:
+                needs_to_be_executed = has_node_changed(
+                    task=task, node=node, state=node_state
+                )
 
     if not needs_to_be_executed:
         collect_provisional_products(session, task)
